@@ -220,7 +220,7 @@ def Fn.isLinear : Fn V K → Bool
   | .rscal f _ => f.isLinear
   | .sum f g => f.isLinear && g.isLinear
   | .ssum f c => f.isLinear && (c = 0)
-  | .qp f a _ _ _ => f.isLinear && (a = 0)
+  | .qp f a _ _ c => f.isLinear && (a = 0) && (c = 0)
   | _ => false
 
 /-- `f * s` as `Functional.__mul__` dispatches for a scalar `s ≠ 0`. -/
@@ -239,10 +239,17 @@ def Fn.conj : Fn V K → Option (Fn V K)
   | .indZero c => some (.const (-c))
   | .lin b c => some (.trans (.indZero (-c)) b)
   | .quad A At Ainv AinvT hasB b c =>
+      -- operator `0.25 * A.inverse` (its inverse: `A.inverse.inverse * 4`), vector
+      -- `0.25 * (-Ainv.adjoint(b) - Ainv(b))`, constant `0.25 * <b, Ainv b> - c`
+      let q : K := 1 / (two * two)
+      let A' : V → V := fun x => o.smul q (Ainv x)
+      let At' : V → V := fun x => o.smul q (AinvT x)
+      let Ainv' : V → V := fun x => A (o.smul (two * two) x)
+      let AinvT' : V → V := fun x => o.smul (two * two) (At x)
       if hasB then
-        some (.quad Ainv AinvT A At true
-          (o.sub (o.smul (-1) (AinvT b)) (Ainv b)) (o.inner b (Ainv b) - c))
-      else some (.quad Ainv AinvT A At false o.zero (-c))
+        some (.quad A' At' Ainv' AinvT' true
+          (o.smul q (o.sub (o.smul (-1) (AinvT b)) (Ainv b))) (q * o.inner b (Ainv b) - c))
+      else some (.quad A' At' Ainv' AinvT' false o.zero (-c))
   | .lscal s f =>
       if s ≤ 0 then none else
       match f.conj with
